@@ -177,6 +177,13 @@ func c05Mixes(readerLen int) *Scenario {
 		{"Snapshot", func(s *harness.SchedWorld) { s.RSnapshot("m") }},
 		{"Stats", func(s *harness.SchedWorld) { s.RStats("m") }},
 	}
+	if readerLen == 1 {
+		// two composite programs the one-operation tier would otherwise lack: a
+		// visit (which evicts what it passed) followed by a lookup of a key it evicted
+		rops = append(rops,
+			op{"Asc;Get(a)", func(s *harness.SchedWorld) { s.RVisit("m", false, 0); s.RGet("m", bs("a")) }},
+			op{"KeysDesc;Get(c)", func(s *harness.SchedWorld) { s.RVisitKeyOnly("m", true); s.RGet("m", bs("c")) }})
+	}
 	pick := func(ops []op, maxLen int) ([]op, string) {
 		var prog []op
 		var names []string
@@ -195,7 +202,7 @@ func c05Mixes(readerLen int) *Scenario {
 		return prog, "[" + strings.Join(names, ",") + "]"
 	}
 	return &Scenario{Name: "mixes",
-		Desc: fmt.Sprintf("every mix: initial store in {flushed and cached, flushed and re-opened} x mutator program of 1..2 operations over {Set a (overwrite), Set b (new), Delete c, EvictSomeItems} x reader program of 1..%d operations over {Get a, Get c, GetTotals, Min, Max, ascending visit, descending visit, visit with early stop, key-only visit, Snapshot+read, AllocStats/Stats} x with or without a concurrent Flush", readerLen),
+		Desc: fmt.Sprintf("every mix: initial store in {flushed and cached, flushed and re-opened} x mutator program of 1..2 operations over {Set a (overwrite), Set b (new), Delete c, EvictSomeItems} x reader program of 1..%d operations over {Get a, Get c, GetTotals, Min, Max, ascending visit, descending visit, visit with early stop, key-only visit, Snapshot+read, AllocStats/Stats} (the one-operation tier adds the programs [ascending visit, Get a] and [key-only descending visit, Get c]) x with or without a concurrent Flush", readerLen),
 		Setup: func(s *harness.SchedWorld) {
 			setup3(harness.Choose(2, harness.ClassOp) == 1)(s)
 		},
